@@ -434,7 +434,33 @@ func init() {
 	intrinsics["fmt.Sprintf"] = strStub
 	intrinsics["fmt.Sprint"] = strStub
 	intrinsics["fmt.Sprintln"] = strStub
-	intrinsics["encoding/hex.EncodeToString"] = strStub
+	// hex.EncodeToString: exact, as terms (two characters per byte), without executing the table lookups
+	intrinsics["encoding/hex.EncodeToString"] = func(e *Engine, st *State, a []Value, in ssa.Instruction) Value {
+		src := a[0].(SliceV)
+		var out []Value
+		allConst := true
+		var buf []byte
+		if src.Len > 0 {
+			o := e.obj(st, src.Obj)
+			for i := 0; i < src.Len; i++ {
+				b := st.resolve(o.cells[src.Off+i*src.Stride].(*Term))
+				for _, nib := range []*Term{Extract(b, 7, 4), Extract(b, 3, 0)} {
+					n := ZExt(nib, 8)
+					ch := Ite(Cmp("bvult", n, BVu(10, 8)), BinBV("bvadd", n, BVu('0', 8)), BinBV("bvadd", n, BVu('a'-10, 8)))
+					if ch.IsConst() {
+						buf = append(buf, byte(ch.U64()))
+					} else {
+						allConst = false
+					}
+					out = append(out, ch)
+				}
+			}
+		}
+		if allConst {
+			return string(buf)
+		}
+		return SymStr{bytes: out}
+	}
 	nop := func(e *Engine, st *State, a []Value, in ssa.Instruction) Value { return nil }
 	intrinsics["fmt.Println"] = func(e *Engine, st *State, a []Value, in ssa.Instruction) Value {
 		return Tuple{BVu(0, 64), Iface{}}
